@@ -8,6 +8,14 @@ use crate::ops::Outcome;
 use crate::runner::{bytes_of, Dispatch, Report};
 use serde_json::{json, Value};
 
+fn props_enc(case: &Value) -> Vec<&str> {
+    let mut p: Vec<&str> = case.get("props").and_then(|p| p.as_array()).map(|a| a.iter().filter_map(|x| x.as_str()).collect()).unwrap_or_else(|| vec!["C03"]);
+    if case["tr"].as_bool().unwrap_or(false) {
+        p.push("C14");
+    }
+    p
+}
+
 pub fn evo_case(case: &Value, dispatch: Dispatch, r: &mut Report) {
     let (wops, rops) = match (
         dispatch(case["wt"].as_u64().unwrap() as usize),
@@ -31,7 +39,8 @@ pub fn evo_case(case: &Value, dispatch: Dispatch, r: &mut Report) {
     match &encs[0] {
         Outcome::Ok(real) if *real == b => {}
         other => {
-            let mut props = vec!["C04", "C02", "C03"];
+            let mut props = vec!["C04", "C02"];
+            props.extend(props_enc(case));
             if other.is_panic() {
                 props.push("C17");
             }
@@ -44,7 +53,8 @@ pub fn evo_case(case: &Value, dispatch: Dispatch, r: &mut Report) {
     }
 
     let exp = case["exp"].as_array().expect("exp");
-    let props: &[&str] = if same { &["C03", "C02"] } else { &["C03"] };
+    let given: Vec<&str> = case.get("props").and_then(|p| p.as_array()).map(|a| a.iter().filter_map(|x| x.as_str()).collect()).unwrap_or_default();
+    let props: &[&str] = if !given.is_empty() { &given } else if same { &["C03", "C02"] } else { &["C03"] };
     if exp[0] == "ok" {
         let want = match rops.canon(&exp[1]) {
             Ok(w) => w,
@@ -84,7 +94,7 @@ pub fn evo_case(case: &Value, dispatch: Dispatch, r: &mut Report) {
         let want_class = exp[0].as_str().unwrap();
         let want_field = String::from_utf8(bytes_of(&exp[1])).unwrap();
         let got = rops.decode(&b);
-        let ok = matches!(&got, Outcome::Err(c, d) if *c == want_class && *d == want_field);
+        let ok = matches!(&got, Outcome::Err(c, d) if *c == want_class && (want_field == "*" || *d == want_field));
         if !ok {
             let mut p = props.to_vec();
             if got.is_panic() {
